@@ -79,6 +79,14 @@ func runChainProfile(p profileSpec, seed uint64, n int, out string, replay strin
 	if findings == nil {
 		findings = []finding{}
 	}
+	if p.name == "valid" { // every VB case is one distinct, non-trivial input
+		nontrivial = 0
+		for k, v := range stats {
+			if strings.HasPrefix(k, "vb:") {
+				nontrivial += v
+			}
+		}
+	}
 	res := map[string]any{"profile": p.name, "seed": seed, "commands": o.nCmd, "histories": total,
 		"stats": map[string]any{"distinct_histories": len(distinct), "distinct_nontrivial": nontrivial, "kinds": stats},
 		"findings": findings, "samples": samples}
